@@ -159,10 +159,11 @@ class NetworkXGraphStorageDisjoint:
         def extract_graph(self, graph_id: str) -> nx.Graph or None:
             self.lock.acquire()
             try:
-                graph = self.graphs[graph_id]
+                # the copy is taken while the lock is held (a node added concurrently would
+                # otherwise change the dictionaries being copied)
+                return self.graphs[graph_id].copy()
             finally:
                 self.lock.release()
-            return graph.copy()
 
         def get_graph(self, graph_id) -> nx.Graph:
             # return the store for this graph
